@@ -88,8 +88,14 @@ def run(tier):
             if pos == "alone" or (pos == "first" and slot[2] in ("block", "blocklist", "kv", "points", "projection", "enum")):
                 # nested one level: the same probe as the first thing inside every parent that can hold this block type
                 contexts += [tuple(p) for p in parents.get(t, [])]
+            if slot[2] == "char" and pos == "alone":
+                contexts = contexts + ["blank"]        # the same probe with a blank as the character (LABEL WRAP ' ')
             for ctxp in contexts:
                 conc = faults.ValidRenderer(seed, avoid_quote="\"")   # strings containing the output quote are outside the guarantee
+                ctxp_name = ctxp if isinstance(ctxp, str) else ""
+                if ctxp == "blank":
+                    conc.chars = [" "]
+                    ctxp = None
                 acts = concretise.with_root(copy.deepcopy(h), t)
                 if t == "layer" and slot[1] != "type":
                     tattr = {"a": "attr", "key": "type", "kc": "U", "val": {"sh": "enum", "w": "point", "cs": "U"}}
@@ -127,6 +133,12 @@ def run(tier):
                     if es != rs:
                         ck.violation("C19|storage|%s" % where, "stored under different keys / nesting than the schema and the text-to-dict contract say: expected %r got %r" % (es, rs),
                                      {"text": text})
+                    elif slot[2] in ("char", "str", "strpat") and ctxp_name == "blank":
+                        # the representative must arrive as written (a blank is a value, not padding)
+                        dfv = project.diff(conc.expected(h[-1]["post"]), project.project(d))
+                        if dfv:
+                            ck.violation("C19|parse-value|%s" % where, "the representative is not stored as written: %r" % (dfv,), {"text": text})
+                            continue
                 del catcher.records[:]
                 try:
                     out = dumps(d)
